@@ -23,7 +23,7 @@ UnsignedFixed == {"UShort", "UShortB", "UInt"}
 FloatWidth == [Float |-> 4, Double |-> 8]
 ArrayElem == [ShortArr |-> "Short", IntArr |-> "Int", LongArr |-> "Long",
               FloatArr |-> "Float", DoubleArr |-> "Double", TextArr |-> "Text"]
-ScalarOps == {"Bool", "Byte", "Decimal", "Blob", "Text", "ShortBytes", "IntBytes", "TextShort"}
+ScalarOps == {"Bool", "Byte", "Decimal", "Blob", "Text", "ShortBytes", "IntBytes", "TextShort", "Raw"}
                \cup DOMAIN FixedWidth \cup DOMAIN FloatWidth
 ArrayOps == DOMAIN ArrayElem
 Ops == ScalarOps \cup ArrayOps
@@ -54,6 +54,7 @@ EncScalar(op, v) ==
     [] op = "ShortBytes" -> NatToBytes(Len(v), 2) \o v
     [] op = "TextShort"  -> NatToBytes(Len(v), 2) \o v
     [] op = "IntBytes"   -> NatToBytes(Len(v), 4) \o v
+    [] op = "Raw"        -> v          \* WriteBytes / Write(b, off, n): the bytes as they are, no prefix
 
 \* element width of the fixed-width array kinds (text arrays are variable)
 ArrayElemWidth == [ShortArr |-> 2, IntArr |-> 4, LongArr |-> 8, FloatArr |-> 4, DoubleArr |-> 8]
@@ -148,6 +149,42 @@ Dec(op, b, p) ==
             ELSE DecElems(ArrayElem[op], b, p + 2, n, <<>>)
   ELSE DecScalar(op, b, p)
 
+\* Raw bytes carry no length: the matching read is ReadBytes(n) with the number n of bytes that were written.
+DecRaw(b, p, n) == IF Have(b, p, n) THEN Good(Slice(b, p, n), p + n) ELSE Bad
+
+\* decode n variable-length elements by halving: the same result as DecElems, recursion depth log n
+\* (DecElems is linear in depth, which TLC pays more than quadratically: text arrays of 32767 elements)
+RECURSIVE DecElemsDC(_, _, _, _)
+DecElemsDC(eop, b, p, n) ==
+  IF n = 0 THEN Good(<<>>, p)
+  ELSE IF n = 1 THEN Bind(DecScalar(eop, b, p), LAMBDA d : IF d.ok THEN Good(<<d.v>>, d.next) ELSE Bad)
+  ELSE Bind(DecElemsDC(eop, b, p, n \div 2),
+            LAMBDA x : IF ~x.ok THEN Bad
+                       ELSE Bind(DecElemsDC(eop, b, x.next, n - (n \div 2)),
+                                 LAMBDA y : IF y.ok THEN Good(x.v \o y.v, y.next) ELSE Bad))
+
+\* the matching read of the program element <<op, v>> at position p of b: Dec for every kind that is
+\* self-describing, ReadBytes(Len(v)) for raw bytes.  (Variable-length arrays go through the halving decoder.)
+DecFor(op, v, b, p) ==
+  IF op = "Raw" THEN DecRaw(b, p, Len(v))
+  ELSE IF op \in ArrayOps \ DOMAIN ArrayElemWidth
+  THEN IF ~Have(b, p, 2) THEN Bad
+       ELSE IF b[p] >= 128 THEN Bad
+       ELSE DecElemsDC(ArrayElem[op], b, p + 2, BytesToNat(Slice(b, p, 2)))
+  ELSE Dec(op, b, p)
+
+\* flatten by halving (Concat of Bytes.tla is linear in depth)
+RECURSIVE ConcatDC(_, _, _)
+ConcatDC(ss, lo, hi) == IF lo > hi THEN <<>>
+                        ELSE IF lo = hi THEN ss[lo]
+                        ELSE LET mid == (lo + hi) \div 2 IN ConcatDC(ss, lo, mid) \o ConcatDC(ss, mid + 1, hi)
+
+\* Enc as the stream appends it: the same bytes as Enc, variable-length arrays flattened by halving
+EncFor(op, v) ==
+  IF op \in ArrayOps \ DOMAIN ArrayElemWidth
+  THEN NatToBytes(Len(v), 2) \o Bind([i \in 1..Len(v) |-> EncScalar(ArrayElem[op], v[i])], LAMBDA ss : ConcatDC(ss, 1, Len(ss)))
+  ELSE Enc(op, v)
+
 \* what a matching read returns for a written value (nil == empty; the
 \* unsigned kinds return the zero extension)
 Canon(op, v) == v
@@ -175,8 +212,7 @@ Init == buf = <<>> /\ written = 0 /\ prog = <<>> /\ rpos = 0 /\ rd = <<>>
 W(op, v) ==
   /\ rpos = 0
   /\ InRange(op, v)
-  /\ buf' = buf \o Enc(op, v)
-  /\ written' = written + Len(Enc(op, v))
+  /\ \E e \in {EncFor(op, v)} : buf' = buf \o e /\ written' = written + Len(e)   \* (bound by value)
   /\ prog' = Append(prog, <<op, v>>)
   /\ UNCHANGED <<rpos, rd>>
 
@@ -187,9 +223,8 @@ Open == rpos = 0 /\ rpos' = 1 /\ UNCHANGED <<buf, written, prog, rd>>
 R ==
   /\ rpos > 0
   /\ Len(rd) < Len(prog)
-  /\ LET op == prog[Len(rd) + 1][1]
-         d  == Dec(op, buf, rpos)
-     IN /\ d.ok
+  /\ \E d \in {DecFor(prog[Len(rd) + 1][1], prog[Len(rd) + 1][2], buf, rpos)} :   \* (bound by value)
+        /\ d.ok
         /\ rd' = Append(rd, d.v)
         /\ rpos' = d.next
   /\ UNCHANGED <<buf, written, prog>>
@@ -205,7 +240,7 @@ ExactConsumption == (rpos > 0 /\ Len(rd) = Len(prog)) => rpos = Len(buf) + 1
 
 \* the reader can always continue: a well-formed stream never fails
 NoStuck == (rpos > 0 /\ Len(rd) < Len(prog)) =>
-              Dec(prog[Len(rd) + 1][1], buf, rpos).ok
+              DecFor(prog[Len(rd) + 1][1], prog[Len(rd) + 1][2], buf, rpos).ok
 
 \* canonical decimal: no shorter class holds the value
 Canonical == \A i \in 1..Len(prog) :
@@ -217,6 +252,6 @@ Canonical == \A i \in 1..Len(prog) :
 \* self-delimiting: an element decodes the same whatever follows it
 SelfDelimiting == \A i \in 1..Len(prog) :
    LET e == Enc(prog[i][1], prog[i][2])
-       d == Dec(prog[i][1], e \o <<7, 7>>, 1)
+       d == DecFor(prog[i][1], prog[i][2], e \o <<7, 7>>, 1)
    IN d.ok /\ d.v = Canon(prog[i][1], prog[i][2]) /\ d.next = Len(e) + 1
 =============================================================================
